@@ -71,7 +71,8 @@ START_KINDS = ["bare", "bare-tuple", "empty-context", "context-tree", "untyped-v
 def rand_attrs(rng):
     out = {}
     for _ in range(rng.choice([0, 0, 1, 1, 2, 3])):
-        k = rng.choice(["latex_name", "unit", "range", "opts", "weight", "run", "fill", "cuts"])
+        k = rng.choice(["latex_name", "unit", "range", "opts", "weight", "run", "fill", "cuts",
+                        "explicit_none", "tags", "cut"])
         out[k] = {"run": rng.choice([1234, "2023a"]),      # attributes named like methods of
                   "fill": 7,                               # elements: still plain attributes
                   "latex_name": rng.choice(["x_1", "E^+", "\\\\phi"]),
@@ -80,7 +81,12 @@ def rand_attrs(rng):
                   "opts": {"log": True, "bins": [1, 2, {"deep": rng.randint(0, 3)}]},
                   "weight": rng.choice([0, 1.5, 2]),
                   # a tuple holding mutable items (built from the recipe by build_var)
-                  "cuts": {"__tuple__": [[0, rng.randint(1, 9)], {"k": [1]}]}}[k]
+                  "cuts": {"__tuple__": [[0, rng.randint(1, 9)], {"k": [1]}]},
+                  # an attribute explicitly given as None is an attribute like any other
+                  "explicit_none": None,
+                  # mutable values that are not dict / list / tuple
+                  "tags": {"__set__": ["mc", "v%d" % rng.randint(0, 3)]},
+                  "cut": {"__cut__": [0, rng.randint(1, 9)]}}[k]
     return out
 
 
@@ -216,9 +222,7 @@ def build_var(vr):
     import lena.variables
     k = vr[0]
     if k == "var":
-        kw = dict(copy.deepcopy(vr[4]))
-        if isinstance(kw.get("cuts"), dict):
-            kw["cuts"] = tuple(kw["cuts"]["__tuple__"])
+        kw = _attrs(vr[4])
         if vr[3]:
             kw["type"] = vr[3]
         return lena.variables.Variable(vr[1], gen.DATA_FUNCS[vr[2]], **kw)
@@ -286,10 +290,33 @@ def leaves(vr):
     return [(combine_name(vr), vr[3], ("combine", len(vr[1])))]
 
 
+class Cut(object):
+    """A user's attribute object (mutable, compared by value)."""
+
+    def __init__(self, lo, hi):
+        self.lo, self.hi = lo, hi
+        self.notes = []
+
+    def __eq__(self, other):
+        return isinstance(other, Cut) and vars(self) == vars(other)
+
+    def __ne__(self, other):
+        return not self == other
+
+    __hash__ = None
+
+    def __repr__(self):
+        return "Cut(%r, %r, notes=%r)" % (self.lo, self.hi, self.notes)
+
+
 def _attrs(a):
     a = copy.deepcopy(a)
     if isinstance(a.get("cuts"), dict):
         a["cuts"] = tuple(a["cuts"]["__tuple__"])
+    if isinstance(a.get("tags"), dict):
+        a["tags"] = set(a["tags"]["__set__"])
+    if isinstance(a.get("cut"), dict):
+        a["cut"] = Cut(*a["cut"]["__cut__"])
     return a
 
 
@@ -411,6 +438,10 @@ def apply_recorded(v, x, obs, what, invs):
             o["__changed_downstream__"] = 1
         elif isinstance(o, list):
             o.append("__changed_downstream__")
+        elif isinstance(o, set):
+            o.add("__changed_downstream__")
+        elif isinstance(o, Cut):
+            o.notes.append("__changed_downstream__")
     return invs[-1]
 
 
@@ -675,7 +706,7 @@ MAX_PER_MECH = 4   # the worker keeps at most 200 violations: one mechanism must
 
 
 # ------------------------------------------------------------------ data of every shape
-DATA_SHAPES = ["list-with-dict-second", "list-of-two", "deque-with-dict-second", "generator",
+DATA_SHAPES = ["intermediate-pair-lookalike", "list-with-dict-second", "list-of-two", "deque-with-dict-second", "generator",
                "iterator-of-two-with-dict", "dict", "string-of-two", "triple", "set",
                "list-with-dict-second-in-context"]
 
@@ -728,6 +759,34 @@ def run_shapes(r, obs):
     import lena.variables
     obs.nontrivial = True
     shape, form = r["shape"], r["form"]
+    if shape == "intermediate-pair-lookalike":
+        # a getter in the MIDDLE of a composition returns a 2-tuple whose second item is a dict
+        # (a hit selected from an event): it is that getter's result, handed on whole
+        pick = lena.variables.Variable("hit", lambda ev: ((ev, ev + 1), {"detector": "A"}),
+                                       type="hit")
+        whole = lena.variables.Variable("whole", lambda h: ("got", h), type="probe")
+        after = lena.variables.Variable("second", lambda g: g[1][1], type="last")
+        expected3 = {"detector": "A"}
+        if form == "single":
+            res = lena.variables.Compose(pick, whole)(5)
+            exp = ("got", ((5, 6), {"detector": "A"}))
+        elif form == "compose":
+            res = lena.variables.Compose(pick, whole, after)((5, {"i": 1}))
+            exp = expected3
+        elif form == "sequence":
+            out = list(lena.core.Sequence(pick, whole, after).run(iter([5])))
+            res = out[0] if len(out) == 1 else None
+            exp = expected3
+        else:
+            res = lena.variables.Combine(lena.variables.Compose(pick, whole),
+                                         lena.variables.Compose(pick, whole, after))(5)
+            exp = (("got", ((5, 6), {"detector": "A"})), expected3)
+        obs.count("shaped_data_applications")
+        ok = isinstance(res, tuple) and len(res) == 2 and isinstance(res[1], dict)
+        obs.check(ok and res[0] == exp, "data-differs-from-nested-getters:intermediate-pair-lookalike",
+                  "%s over a getter whose result is a 2-tuple with a dict second: data %r, nested "
+                  "getters give %r" % (form, res[0] if ok else res, exp))
+        return
     describe = Describe()
     _, ref_d, _ = mk_shaped(shape)
     expected = describe(ref_d)
